@@ -96,6 +96,14 @@ class C02(Prop):
                             names.append(x)
                     ops.append({"id": opid, "s": 0, "op": "get_many", "oids": names})
                     vbs = [[o, gen.value(rng, kinds), vb_opts(rng)] for o in names]
+                    if rng.random() < 0.15:
+                        # the agent is free to answer under other names: below joint-iso-itu-t (2) the second
+                        # arc is unbounded (X.690 8.19.4: first subidentifier 80 + Y, several octets if need be)
+                        for vb in vbs:
+                            if rng.random() < 0.5:
+                                vb[0] = gen.oid_text((2, gen.second_arc_under_2(rng)) + tuple(gen.arc(rng, small=0.4) for _ in range(rng.randint(0, 4))))
+                        seen_names = set()
+                        vbs = [vb for vb in vbs if not (vb[0] in seen_names or seen_names.add(vb[0]))]
                 item = {"k": "custom", "pdu": "response", "varbinds": vbs}
                 if rng.random() < 0.2:
                     item["opts"] = {"w": rng.choice([0, 2, 3, gen.len_width(rng)]), "vw": rng.choice([0, 2, 3, gen.len_width(rng)])}
